@@ -92,6 +92,10 @@ func propC07(c *Ctx, r *Report) {
 	ruleAveragesCachePrivate(c, newSharedAnalysis(c), r, "C07-R7/averages-cache-private")
 	// a valid held conversion is executed: the re-validation uses the executing height (shared with C05-R5)
 	ruleRevalidation(c, r, "C07-R8/revalidation-height")
+	// a held conversion stays in holding until the first rated block: holding rows are never deleted (shared with C06-R5)
+	ruleInsertOnly(c, r, cat, "C07-R10/holding-kept")
+	// every conversion the protocol admits is executed: the admission table of the executor (shared with C13)
+	ruleAdmissionTable(c, r, e, "C07-R11/admission-table")
 	// every height of the holding window is visited and every batch of it considered (shared with C06-R10)
 	r.rule("C07-R9/window-complete", 2, "the holding window is walked to its end")
 	ruleLoopCompletes(c, r, "C07-R9/window-complete", c.fn("node.Pegnetd.ApplyTransactionBatchesInHolding"), "node.Pegnetd.applyTransactionBatch", "every held batch of the window is considered at the first rated block")
@@ -586,6 +590,7 @@ func holdingSelectorOneHeight(c *Ctx, r *Report, rule string) {
 		found = true
 		w := strings.ReplaceAll(strings.ToUpper(strings.Join(strings.Fields(st.Where), " ")), `"`, "")
 		w = strings.TrimSuffix(strings.TrimSpace(strings.TrimPrefix(w, "WHERE ")), ";")
+		r.check(!st.Limit, rule, "holding selector returns every batch of the height", c.ipos(st.Site), "no LIMIT", "the selector is limited (`"+oneLine(st.Text)+"`): each height of the window is read exactly once, so what does not fit is never considered for execution - it stays pending for ever, and anybody can push other users' conversions out by flooding a block")
 		okk := st.Table == "pn_transaction_batch_holding" && (w == "HEIGHT == ?" || w == "HEIGHT = ?" || strings.HasPrefix(w, "HEIGHT == ? ORDER") || strings.HasPrefix(w, "HEIGHT = ? ORDER")) && !st.Unres
 		r.check(okk, rule, "holding selector reads the batches of one height", c.ipos(st.Site), "WHERE height = ?", "the selector's predicate is `"+oneLine(st.Where)+"`: called once per height of the window, it returns batches of other heights as well, so a batch is considered more than once (a rejected one can then execute)")
 	}
